@@ -53,12 +53,13 @@ def batches(d, n, sizes, pad_to, seed):
   rng = np.random.RandomState(seed + 1)
   out = []
   start = 0
-  for s in sizes:
+  for bi, s in enumerate(sizes):
     idx = list(range(start, min(start + s, n)))
     start += s
     b = {k: v[idx] for k, v in d.items()}
     c = len(idx)
-    size = max(pad_to, c)
+    # pad_to: one size for all batches, or one per batch (mixed padded sizes, as padded_batch with several buckets gives)
+    size = max(pad_to[bi] if isinstance(pad_to, (list, tuple)) else pad_to, c)
     pb = {}
     for k, v in b.items():
       padv = np.zeros((size,) + v.shape[1:], v.dtype)
@@ -163,7 +164,9 @@ def check_monoid(inp):
 def sweep_monoid(tier, seed):
   for seq in (False, True):
     for n in (1, 5, 7):
-      parts = [([n], n), ([n], n + 3), ([1] * n, 2), ([2] * ((n + 1) // 2), 4), ([3, n], 8)]
+      parts = [([n], n), ([n], n + 3), ([1] * n, 2), ([2] * ((n + 1) // 2), 4), ([3, n], 8),
+               # batches of different padded sizes, the smaller ones with masked rows of their own
+               ([4, n], [8, 4]), ([2, 2, n], [6, 3, 5]), ([n, 0], [n + 2, 2])]
       yield dict(n=n, seq=seq, seed=seed, partitions=parts)
 
 
